@@ -8,8 +8,11 @@ def record(addr, rtype, data, upper=True):
     return ":" + (text.upper() if upper else text)
 
 
-def dump(image, rec_len=16, start=0, upper=True, ext_record=False, lengths=None):
-    """Intel-HEX text for `image` placed at address `start` (< 64 KiB segments handled)."""
+def dump(image, rec_len=16, start=0, upper=True, ext_record=False, lengths=None, skip_blank=False):
+    """Intel-HEX text for `image` placed at address `start` (< 64 KiB segments handled).
+
+    skip_blank: data records that would hold only 0xFF (erased flash) are left out, except the first and the
+    last record - the file then has address gaps, which a reader fills with 0xFF again."""
     lines = []
     if ext_record:
         lines.append(record(0, 4, [0, 0], upper))
@@ -24,7 +27,9 @@ def dump(image, rec_len=16, start=0, upper=True, ext_record=False, lengths=None)
         if (addr >> 16) != high:
             high = addr >> 16
             lines.append(record(0, 4, [(high >> 8) & 0xFF, high & 0xFF], upper))
-        lines.append(record(addr & 0xFFFF, 0, image[pos : pos + n], upper))
+        chunk = image[pos : pos + n]
+        if not (skip_blank and pos > 0 and pos + n < len(image) and set(chunk) == {0xFF}):
+            lines.append(record(addr & 0xFFFF, 0, chunk, upper))
         pos += n
         addr += n
     lines.append(record(0, 1, [], upper))
